@@ -331,7 +331,14 @@ class IntegralGenerator:
             v = attr["expression"]
 
             # Generate code only if the expression is not already in cache
-            if not self.get_var(quadrature_rule, domain, v):
+            if mode == "varying":
+                # Do not fall back to the piecewise scope here: an entry there may
+                # come from another quadrature rule for which this expression does
+                # not vary (e.g. a one-point rule), while it does for this rule
+                cached = self.scopes[(domain, quadrature_rule)].get(v)
+            else:
+                cached = self.get_var(quadrature_rule, domain, v)
+            if not cached:
                 if v._ufl_is_literal_:
                     vaccess = L.ufl_to_lnodes(v)
                 elif mt := attr.get("mt"):
